@@ -305,6 +305,11 @@ var kC02NonInt = run.NewKind("c02.non-interference", func(c *run.Ctx, t c02NonIn
 		return nil
 	}
 	r := res.Vals[0]
+	// deletions depend on the values the earlier paths have written: count them along the defining reduction itself
+	if tr := eval("reduce path("+t.P+") as $p ([., 0]; .[0] as $v | [$v | getpath($p) | first("+t.F+")] as $o | if ($o | length) == 0 then [$v, .[1] + 1] else [($v | setpath($p; $o[0])), .[1]] end) | .[1]", in); tr.End != run.EndOK || len(tr.Vals) != 1 || run.Canon(tr.Vals[0]) != "0" {
+		c.Inconclusive("update-deletes-a-path")
+		return nil
+	}
 	// the law is stated for updates that do not delete: f must yield a value at every updated path and no
 	// array on the way to an updated path may have changed its length (deletion shifts the siblings)
 	for _, u := range updated {
